@@ -112,6 +112,40 @@ example : ∃ back, readBody toyCoding defaultReader (writeHeader exCfg exCloud)
   ply_roundtrip_binary_checked toyCoding exCfg exCloud _ (by decide) (by decide) (by decide) (by decide)
     (by decide) (by decide)
 
+/-! ### towards `ClaimOK` from header-level guards: the reader-construction step (`PropertyReader.build*`) -/
+
+/-- a 2/3/4-vector reader all of whose component names are in the header (pairwise distinct names, one scalar type) IS
+built, with that type, located at its components' header positions — for any header order -/
+theorem ply_reader_built_all (binary : Bool) (props : List (Bytes × SType)) (r : RProp) (hlen : 2 ≤ r.names.length)
+    (hn : r.names.Nodup) (hnd : (props.map (·.1)).Nodup) (t : SType) (idx : List Nat)
+    (hl : idx.length = r.names.length)
+    (hidx : ∀ k (hk : k < r.names.length), ∃ hi : idx[k]'(by omega) < props.length, props[idx[k]'(by omega)] = (r.names[k], t)) :
+    buildReader binary props r = some ⟨r.attr, r.names, idx.map (locOf binary props), some t⟩ :=
+  buildReader_all binary props r hlen hn hnd t idx hl hidx
+
+/-- THE IGNORABLE-W FALLBACK (colours without alpha: what the default writer emits for `Color`): `red green blue` present
+with one type, `alpha` ABSENT ⇒ the 4-vector reader is not built and the 3-vector reader over the first three names is,
+located at their header positions.  (With `alpha` PRESENT under another type the binary reader forces that type on the
+whole group — reader_vector4.go:73 — which is the candidate finding `c04.holds.alpha_next_to_color_witness`.) -/
+theorem ply_color_fallback_reader (binary : Bool) (props : List (Bytes × SType)) (r : RProp) (hlen : r.names.length = 4)
+    (hign : r.ignorableW = true) (hn : r.names.Nodup) (hnd : (props.map (·.1)).Nodup) (t : SType) (idx : List Nat)
+    (hl : idx.length = 3)
+    (hidx : ∀ k (hk : k < 3), ∃ hi : idx[k]'(by omega) < props.length,
+      props[idx[k]'(by omega)] = (r.names[k]'(by omega), t))
+    (habs : ∀ p ∈ props, p.1 ≠ r.names[3]'(by omega)) :
+    buildReader binary props r = some ⟨r.attr, r.names.take 3, idx.map (locOf binary props), some t⟩ :=
+  buildReader_fallback binary props r hlen hign hn hnd t idx hl hidx habs
+
+example : buildReader true [(nm "x", .float), (nm "blue", .uchar), (nm "red", .uchar), (nm "green", .uchar)]
+    ⟨colorAttr, [nm "red", nm "green", nm "blue", nm "alpha"], true⟩
+    = some ⟨colorAttr, [nm "red", nm "green", nm "blue"], [5, 6, 4], some .uchar⟩ := by decide
+
+/-- the forced W type, concretely: `red green blue uchar` + `alpha float` in a binary header builds ONE 4-vector reader
+of type float over the uchar fields -/
+example : buildReader true [(nm "red", .uchar), (nm "green", .uchar), (nm "blue", .uchar), (nm "alpha", .float)]
+    ⟨colorAttr, [nm "red", nm "green", nm "blue", nm "alpha"], true⟩
+    = some ⟨colorAttr, [nm "red", nm "green", nm "blue", nm "alpha"], [0, 1, 2, 3], some .float⟩ := by decide
+
 /-- a welded, UV-mapped quad (two triangles sharing an edge, one unreferenced vertex): the per-corner path -/
 def exUV : MeshVal Nat :=
   ⟨.triangle, [0, 1, 2, 2, 1, 3],
